@@ -42,6 +42,10 @@ func (self ValueAnyObject) IsEqual(other Value) (bool, *VmInterrupt) {
 		if !found {
 			return false, nil
 		}
+		// the fields of an any-object are dynamically typed: values of different kinds are simply not equal
+		if (*value).Kind() != (*otherValue).Kind() {
+			return false, nil
+		}
 		isEqual, i := (*value).IsEqual(*otherValue)
 		if i != nil {
 			return false, i
